@@ -305,3 +305,23 @@ Example C08_ex_zero_fraction_quirk :
   | Err _ => None
   end = Some (0, Err EZeroDivision).
 Proof. vm_compute. reflexivity. Qed.
+
+(* ---------------- money x money on the directory model ---------------- *)
+(* The hypothesis of C08_mixed_mul_partial ("no unit is registered for the
+   product term") is discharged on the directory model (Model/Registry.v) for
+   every directory reachable by declarations in which no type of dimension
+   Money**2 exists: there the product of two currencies resolves to nothing,
+   hence UndefinedResultError. *)
+From QV Require Model.Registry Model.Dim Proofs.RegistryProofs Proofs.DirectoryProofs
+     Proofs.C02Proofs Proofs.C02Undef.
+Theorem C08_money_times_money_undefined : forall dm s u v cm,
+  C02Proofs.Reach dm s ->
+  In u (Registry.st_units s) -> In v (Registry.st_units s) ->
+  Registry.find_cls s (Registry.ru_cls u) = Some cm ->
+  Registry.find_cls s (Registry.ru_cls v) = Some cm ->
+  Dim.nf_dim (Dim.nf_mul (Registry.ru_nf u) (Registry.ru_nf v)) <> [] ->
+  (forall c, In c (Registry.st_classes s) ->
+     Registry.rc_dim c <> Dim.dv_mul (Registry.rc_dim cm) (Registry.rc_dim cm)) ->
+  snd (Registry.unit_mul (RegistryProofs.clear_cache s) u v) = Err EUndefinedResult.
+Proof. exact C02Undef.R_money_times_money_undefined. Qed.
+Print Assumptions C08_money_times_money_undefined.
